@@ -172,6 +172,9 @@ pub fn run(e: &Engine) {
         (gen::enum_values(3, &gen::u2()), false),
         ((0u8..40).map(|b| (vec![b'k', b * 3], b as u64 * 1000)).collect(), false),
         ((0u16..256).map(|b| (vec![b as u8], b as u64)).collect(), false),
+        // every transition with an 8-byte output; a non-final one-transition node with a wide output
+        ((0u16..256).map(|b| (vec![b'w', b as u8], crate::engine::mix(b as u64, 0xfa7))).collect(), false),
+        (vec![(b"alpha".to_vec(), 1 << 40), (b"alpine".to_vec(), u64::MAX)], false),
     ];
     let u3 = gen::u3();
     for mask in [0x7fffu64, 0x1234, 0x0f0f, 0x5555, 0x2aaa] {
